@@ -295,6 +295,10 @@ def c04(tier, seed):
         pis = level_sets[i % len(level_sets)]
         pis = tuple(a for a in pis if (1 + a) / (1 - a) <= n_rep)
         real_jobs.append((seed + 1000 + i, n_rep, rnd.randint(2, 5), pis, i % 2 == 1, ("x1",) if i % 3 else ()))
+    # runs with exactly the minimum number of reporting units of their single level (where the rounded fraction gives
+    # zero training rows and the guard keeps one): the calibration set must still be held out
+    for i, (a, n_min) in enumerate([(0.7, 6), (0.5, 3), (0.85, 13), (0.65, 5), (0.75, 7), (0.8, 10)] * (2 if quick else 10)):
+        real_jobs.append((seed + 5000 + i, n_min, 2, (a,), i % 2 == 1, ()))
     real_async = pool.map_async(arith.job_corr_run, real_jobs, chunksize=1)
 
     # ---- TLC: calibration clause on every calibration set (export runs are exhaustive runs that also print), rank clause
